@@ -1,7 +1,7 @@
 """C13 — tracks and networks written to file are read back unchanged
 (tracklib/io/track_writer.py, track_reader.py, network_writer.py, network_reader.py, core/obs_time.py
 __str__/readTimestamp, core/track.py toWKT)."""
-import os, itertools, tempfile, atexit, shutil
+import os, itertools, tempfile
 from fractions import Fraction
 from engine import Prop
 
@@ -130,11 +130,11 @@ class P(Prop):
         self.Coords = {"ENU": ENUCoords, "GEO": GeoCoords, "ECEF": ECEFCoords}
         self.Network, self.Node, self.Edge = Network, Node, Edge
         self.TW, self.TR, self.NW, self.NR, self.NF = TrackWriter, TrackReader, NetworkWriter, NetworkReader, NetworkFormat
-        self.tmp = tempfile.mkdtemp(prefix="c13_")
-        atexit.register(shutil.rmtree, self.tmp, True)
+        self.tmp = tempfile.gettempdir()
 
     def tmpfile(self, ext):
-        return os.path.join(self.tmp, "f%d.%s" % (os.getpid(), ext))
+        """one scratch file per process, removed after every case (no directory is left behind by pool workers)"""
+        return os.path.join(self.tmp, "c13_%d.%s" % (os.getpid(), ext))
 
     # ------------------------------------------------------------------ generators
     def layouts(self):
